@@ -254,7 +254,7 @@ func runC04(ctx *core.Ctx, pool *par.Pool) {
 	if !ctx.Quick() {
 		cfgs = []pagedrv.Cfg{pagedrv.CfgA, pagedrv.CfgB, pagedrv.CfgC, pagedrv.CfgE, pagedrv.CfgF}
 		depth, seedDepth = 8, 7
-		ctx.SetBudget(25 * time.Minute)
+		ctx.SetBudget(15 * time.Minute)
 	}
 	var total xstate.Stats
 	sweeps := 0
@@ -286,7 +286,7 @@ func runC11(ctx *core.Ctx, pool *par.Pool) {
 	if !ctx.Quick() {
 		cfgs = []pagedrv.Cfg{pagedrv.CfgA, pagedrv.CfgB, pagedrv.CfgD}
 		depth, seedDepth = 9, 8
-		ctx.SetBudget(25 * time.Minute)
+		ctx.SetBudget(15 * time.Minute)
 	}
 	var total xstate.Stats
 	probes := 0
@@ -328,7 +328,7 @@ func runC07(ctx *core.Ctx, pool *par.Pool) {
 	if !ctx.Quick() {
 		cfgs = []pagedrv.Cfg{pagedrv.CfgA, pagedrv.CfgB, pagedrv.CfgC, pagedrv.CfgF}
 		depth, seedDepth = 9, 8
-		ctx.SetBudget(25 * time.Minute)
+		ctx.SetBudget(15 * time.Minute)
 	}
 	var total xstate.Stats
 	aborts, twinsRun := 0, 0
@@ -418,7 +418,7 @@ func runC10(ctx *core.Ctx, pool *par.Pool) {
 	if !ctx.Quick() {
 		cfgs = []pagedrv.Cfg{pagedrv.CfgA, pagedrv.CfgB, pagedrv.CfgC, pagedrv.CfgE}
 		depth, seedDepth = 9, 8
-		ctx.SetBudget(25 * time.Minute)
+		ctx.SetBudget(15 * time.Minute)
 	}
 	var total xstate.Stats
 	reopens, twinsRun := 0, 0
